@@ -7,7 +7,7 @@ from concurrent.futures import ThreadPoolExecutor
 
 REPO = os.environ.get('VERIF_REPO', '/repo')
 VERIF = os.path.dirname(os.path.dirname(os.path.abspath(__file__)))
-BUILD = os.path.join(VERIF, 'build')
+BUILD = os.path.join(os.environ['VERIF_SCRATCH'], 'build') if os.environ.get('VERIF_SCRATCH') else os.path.join(VERIF, 'build')      # runs on a mutated scratch copy keep their builds with their scratch output
 CXX = 'clang++-14'
 GUARD = 'INOVESA_VERIF'
 
